@@ -683,7 +683,9 @@ class UnionUnmarshaller(AbstractUnmarshaller[UnionT], tp.Generic[UnionT]):
         super().__init__(t, context, var=var)
         self.stack = inspection.args(t, evaluate=True)
         if inspection.isoptionaltype(t):
-            self.stack = (self.stack[-1], *self.stack[:-1])
+            # Try `None` first, wherever it was declared (it is only last for `Optional[...]`).
+            nonetype = type(None)
+            self.stack = (nonetype, *(a for a in self.stack if a is not nonetype))
 
         self.ordered_routines = [self.context[typ] for typ in self.stack]
 
